@@ -44,6 +44,23 @@ Definition kind_name (k : N) : string :=
   if N.eqb k 0 then "int"%string else if N.eqb k 1 then "int64"%string
   else if N.eqb k 2 then "bool"%string else "float64"%string.
 
+(* Functions registered by the application (compose.RegisterStreamChunkConcatFunc[T]) for
+   the types the model calls [COther]: tag -> function on the payloads of the chunks.  The
+   model and every theorem are generic in this registry (a type class, resolved implicitly);
+   the laws a registered function must satisfy are stated in Proofs/ConcatRechunk.v
+   ([UserLaw]); the correspondence check instantiates it with the functions the harness
+   registers (Model/ConcatUser.v). *)
+Class UserFn : Type := { ufn : N -> option (list N -> res N) }.
+
+Definition user_registered {U : UserFn} (t : cty) : option (N * (list N -> res N)) :=
+  match t with
+  | TOther tag => match ufn tag with Some g => Some (tag, g) | None => None end
+  | _ => None
+  end.
+
+Definition payloads (vs : list cval) : list N :=
+  flat_map (fun v => match v with COther _ p => [p] | _ => [] end) vs.
+
 (* GetConcatFunc: the function registered for a dynamic type (Model/ConcatTable.v) *)
 Definition registered (t : cty) : option cfun :=
   match t with
@@ -107,6 +124,9 @@ Definition single_nonzero (zero : cval) (vs : list cval) : res cval :=
   | _ => Err E_MULTI
   end.
 
+Section User.
+Context {U : UserFn}.
+
 Section WithFuel.
   (* [concat_maps_f] is the recursive call for nested maps; tying the knot with fuel
      (the nesting depth of the chunks) keeps the definition structurally recursive. *)
@@ -124,7 +144,11 @@ Section WithFuel.
         | Some FConcatStrings => Ok (CStr (concat_strings (strs vs)))
         | Some FUseLast => Ok (last vs CNil)
         | Some FUseFirst => Ok (hd CNil vs)
-        | None => single_nonzero (zero_of t) vs               (* unregistered type *)
+        | None =>
+            match user_registered t with                      (* registered by the application *)
+            | Some (tag, g) => res_map (COther tag) (g (payloads vs))
+            | None => single_nonzero (zero_of t) vs           (* unregistered type *)
+            end
         end
       end
     end.
@@ -184,3 +208,5 @@ Definition concat_stream (vs : list cval) : res cval :=
   | [v] => Ok v
   | _ => concat_items vs
   end.
+
+End User.
